@@ -825,7 +825,7 @@ func init() {
 			return err
 		},
 		Class: c05LitClass,
-		Quick: 15000, Thorough: 200000,
+		Quick: 15000, Thorough: 200000, FuzzSecs: 45,
 	})
 	vs.Register(vs.Prop[c05Bad]{
 		Name: "C05/nonnumbers",
